@@ -11,8 +11,8 @@ import (
 
 // funcval: function values are Int references; closures/literals carry their AST for inlining.
 type funcVal struct {
-	Lit *ast.FuncLit
-	Fn  *types.Func
+	Lit  *ast.FuncLit
+	Fn   *types.Func
 	Recv *Term
 }
 
